@@ -220,7 +220,7 @@ func (encryptor *HashQuery) OnBind(ctx context.Context, statement sqlparser.Stat
 					Warning("Invalid placeholder index")
 				return values, false, encryptor_base.ErrInvalidPlaceholder
 			}
-			indexes = append(indexes, index)
+			indexes = appendIndexOnce(indexes, index)
 		}
 	}
 
@@ -301,4 +301,16 @@ func (encryptor *HashQuery) calculateHmac(ctx context.Context, data []byte) ([]b
 	defer utils.ZeroizeBytes(key)
 	mac := hmac.GenerateHMAC(key, decrypted)
 	return mac, nil
+}
+
+// appendIndexOnce adds a placeholder index unless it is there already: a placeholder can be found more than once (the same
+// placeholder in two comparisons, a comparison of a nested sub-select collected with the outer WHERE and with its own),
+// but its bound value has to be replaced exactly once
+func appendIndexOnce(indexes []int, index int) []int {
+	for _, known := range indexes {
+		if known == index {
+			return indexes
+		}
+	}
+	return append(indexes, index)
 }
